@@ -26,7 +26,7 @@ THEOREMS = [
     # Index.mapSliceArgs / Index.locMap the theorems above (slice_inclusive, slice_inclusive_descending) are about
     # (BRIDGE_THEOREMS), and those theorems restated for the translated source (GEN_THEOREMS)
 ] + locmap_hook.BRIDGE_THEOREMS + locmap_hook.GEN_THEOREMS
-PARTIAL = [locmap_hook.PARTIAL]
+PARTIAL = []
 CORR_ONLY = [
     'aliasing of tree nodes (shared ArrayGO of targets built by from_product, un-shared by the copy in IndexHierarchy.__init__): the Lean '
     'Level is a value tree without object identity; covered by the oracle only (grow-only histories start from every construction / '
@@ -1493,8 +1493,4 @@ def classify(f):
     d = f.detail or {}
     if c.get('k') == 'flat' and f.kind == 'oracle' and d.get('negstep') and c.get('kind') in ic.DT_CLASS:
         return 'F48-datetime-label-slice-negative-step-stop'
-    if c.get('k') == lmg.K and f.kind == 'oracle' and c.get('npstep') and d.get('npstep') and d.get('key'):
-        ka, kb, st = d['key']
-        if st is not None and st < 0 and kb is not None and kb != -1 and ka != -1:
-            return 'F90-numpy-integer-step-label-slice-stop'
     return None
